@@ -89,6 +89,43 @@ pub fn out_amount(rng: &mut R) -> u64 {
 }
 
 // ------------------------------------------------------------------------------------------------
+// independent oracles (no call into the code under test)
+
+fn merkle_comb(l: &[u8; 32], r: &[u8; 32]) -> [u8; 32] {
+    use elements::hashes::{sha256, Hash, HashEngine};
+    let mut e = sha256::Hash::engine();
+    e.input(l);
+    e.input(r);
+    e.midstate().expect("64 bytes").to_parts().0
+}
+fn leaf32(first: u8) -> [u8; 32] {
+    let mut l = [0u8; 32];
+    l[0] = first;
+    l
+}
+/// (asset id, token id) of an issuance input from primitives: entropy = comb(sha256d(outpoint), contract
+/// hash) for a new issuance (zero blinding nonce), the given entropy for a reissuance; asset =
+/// comb(entropy, 0^32); token = comb(entropy, flag ‖ 0^31), flag 2 iff the issuance AMOUNT is a commitment
+pub fn oracle_ids(inp: &TxIn) -> (AssetId, AssetId) {
+    use elements::hashes::{sha256d, Hash};
+    let iss = &inp.asset_issuance;
+    let e = if iss.asset_blinding_nonce == ZERO_TWEAK {
+        let mut pre = inp.previous_output.txid.to_byte_array().to_vec();
+        pre.extend_from_slice(&inp.previous_output.vout.to_le_bytes());
+        merkle_comb(&sha256d::Hash::hash(&pre).to_byte_array(), &iss.asset_entropy)
+    } else {
+        iss.asset_entropy
+    };
+    let conf = matches!(iss.amount, Value::Confidential(_));
+    (AssetId::from_byte_array(merkle_comb(&e, &leaf32(0))), AssetId::from_byte_array(merkle_comb(&e, &leaf32(if conf { 2 } else { 1 }))))
+}
+/// `CScript::IsUnspendable` of Elements: OP_RETURN first, or longer than 10 000 bytes, or empty
+pub fn oracle_unspendable(s: &Script) -> bool {
+    let b = s.as_bytes();
+    b.is_empty() || b[0] == 0x6a || b.len() > 10_000
+}
+
+// ------------------------------------------------------------------------------------------------
 // scripts
 
 pub fn addressable_script(rng: &mut R) -> Script {
@@ -341,7 +378,7 @@ pub fn base_tx(rng: &mut R, secp: &Secp256k1<All>, sh: &Shape) -> Base {
             tags.push("utxo.EE".into());
             (TxOut { asset: Asset::Explicit(a), value: Value::Explicit(v), nonce: Nonce::Null, script_pubkey: spk, witness: TxOutWitness::default() },
              TxOutSecrets::new(a, AssetBlindingFactor::zero(), v, ValueBlindingFactor::zero()))
-        } else if mode == 1 && v < (1 << 63) {
+        } else if mode == 1 && v >= 1 && v < (1 << 63) {
             // a confidential output made by the library itself
             tags.push("utxo.CC_lib".into());
             let abf = AssetBlindingFactor::new(rng);
@@ -350,10 +387,25 @@ pub fn base_tx(rng: &mut R, secp: &Secp256k1<All>, sh: &Shape) -> Base {
             let rsk = gen::seckey(rng);
             let esk = gen::seckey(rng);
             let prev = SurjectionInput::Known { asset: a, asset_bf: AssetBlindingFactor::new(rng) };
-            let o = TxOut::with_txout_secrets(rng, secp, spk, PublicKey::from_secret_key(secp, &rsk), esk, sec, &[prev]).expect("with_txout_secrets");
-            checks.push(("lib_made_utxo_unblinds", matches!(o.unblind(secp, rsk), Ok(x) if x == sec)));
+            let pseed: u64 = rng.gen();
+            let made = std::panic::catch_unwind(std::panic::AssertUnwindSafe(|| {
+                let mut prng = R::seed_from_u64(pseed);
+                TxOut::with_txout_secrets(&mut prng, secp, spk.clone(), PublicKey::from_secret_key(secp, &rsk), esk, sec, &[prev])
+            }));
             n_conf += 1;
-            (o, sec)
+            match made {
+                Ok(Ok(o)) => {
+                    checks.push(("with_txout_secrets_succeeds_for_admissible_values", true));
+                    checks.push(("lib_made_utxo_unblinds", matches!(o.unblind(secp, rsk), Ok(x) if x == sec)));
+                    (o, sec)
+                }
+                _ => {
+                    // the amount is in [1, 2^63): must have worked; keep going with the same opening made by hand
+                    checks.push(("with_txout_secrets_succeeds_for_admissible_values", false));
+                    (TxOut { asset: Asset::new_confidential(secp, a, abf), value: Value::new_confidential_from_assetid(secp, v, a, vbf, abf),
+                             nonce: Nonce::Null, script_pubkey: spk, witness: TxOutWitness::default() }, sec)
+                }
+            }
         } else if mode == 3 {
             // asset blinded, amount explicit: the verifier commits to the amount on the blinded generator
             tags.push("utxo.CE".into());
@@ -382,52 +434,64 @@ pub fn base_tx(rng: &mut R, secp: &Secp256k1<All>, sh: &Shape) -> Base {
         spent.push(sec);
         if sh.issuance && rng.gen_bool(0.5) {
             n_iss += 1;
-            let re = rng.gen_bool(0.4);
+            // shapes round robin: new issuance / reissuance × asset only / token only / both
+            let shape_no = (sh.seq + i + n_iss) % 6;
+            let re = shape_no >= 3;
+            let (has_amount, has_keys) = match shape_no % 3 { 0 => (true, false), 1 => (false, true), _ => (true, true) };
             let amount = out_amount(rng);
-            let keys = if re || rng.gen_bool(0.4) { None } else { Some(rng.gen_range(1..10u64)) };
+            let keys = rng.gen_range(1..10u64);
             inp.asset_issuance = AssetIssuance {
                 asset_blinding_nonce: if re { gen::tweak(rng) } else { ZERO_TWEAK },
                 asset_entropy: gen::arr32(rng),
-                amount: Value::Explicit(amount),
-                inflation_keys: keys.map(Value::Explicit).unwrap_or(Value::Null),
+                amount: if has_amount { Value::Explicit(amount) } else { Value::Null },
+                inflation_keys: if has_keys { Value::Explicit(keys) } else { Value::Null },
             };
-            // every other issuance with confidential amounts, made by the library
-            let conf_iss = sh.conf_issuance && (sh.seq + i) % 2 == 0;
+            // every other issuance with confidential amounts
+            let conf_iss = sh.conf_issuance && (sh.seq * 7 + i * 3 + n_iss) % 4 < 2;
             let (ivbf, tvbf) = if conf_iss {
                 let (x, y) = (ValueBlindingFactor::new(rng), ValueBlindingFactor::new(rng));
-                if keys.is_none() {
+                if has_amount && !has_keys {
                     // made by the library
-                    let r = inp.blind_issuances_with_bfs(secp, x, y, gen::seckey(rng), gen::seckey(rng));
-                    checks.push(("blind_issuances_with_bfs_ok", r.is_ok()));
+                    let (sk1, sk2) = (gen::seckey(rng), gen::seckey(rng));
+                    let r = std::panic::catch_unwind(std::panic::AssertUnwindSafe(|| inp.blind_issuances_with_bfs(secp, x, y, sk1, sk2).is_ok()));
+                    let ok = matches!(r, Ok(true));
+                    checks.push(("blind_issuances_with_bfs_ok", ok));
+                    if !ok {
+                        inp.asset_issuance.amount = Value::new_confidential_from_assetid(secp, amount, oracle_ids(&inp).0, x, AssetBlindingFactor::zero());
+                    }
                 } else {
-                    // by hand: the token id the verifier derives depends on the amount being confidential,
-                    // so the keys are committed on the generator of the id read AFTER the amount is blinded
+                    // by hand: the token id depends on the amount being a commitment, so the keys are
+                    // committed on the generator of the id derived AFTER the amount is blinded
                     // (TxIn::blind_issuances_with_bfs reads the ids before: see probe.blind_issuances_token_id)
-                    let (aid0, _) = inp.issuance_ids();
-                    inp.asset_issuance.amount = Value::new_confidential_from_assetid(secp, amount, aid0, x, AssetBlindingFactor::zero());
-                    let (_, tid1) = inp.issuance_ids();
-                    inp.asset_issuance.inflation_keys = Value::new_confidential_from_assetid(secp, keys.unwrap(), tid1, y, AssetBlindingFactor::zero());
+                    if has_amount {
+                        inp.asset_issuance.amount = Value::new_confidential_from_assetid(secp, amount, oracle_ids(&inp).0, x, AssetBlindingFactor::zero());
+                    }
+                    inp.asset_issuance.inflation_keys = Value::new_confidential_from_assetid(secp, keys, oracle_ids(&inp).1, y, AssetBlindingFactor::zero());
                 }
                 (x, y)
             } else {
                 (ValueBlindingFactor::zero(), ValueBlindingFactor::zero())
             };
-            tags.push(format!("issuance.{}{}{}", if re { "re" } else { "new" }, if conf_iss { ".conf" } else { ".explicit" }, if keys.is_some() { ".keys" } else { "" }));
-            // (the token id depends on whether the amount is confidential: read the ids afterwards)
-            let (aid, tid) = inp.issuance_ids();
-            if conf_iss && keys.is_none() {
+            tags.push(format!("issuance.{}.{}.{}", if re { "re" } else { "new" }, if conf_iss { "conf" } else { "explicit" },
+                match (has_amount, has_keys) { (true, false) => "asset_only", (false, true) => "token_only", _ => "both" }));
+            // the ids the caller works with come from the independent derivation, not from the code under test
+            let (aid, tid) = oracle_ids(&inp);
+            let real_ids = std::panic::catch_unwind(std::panic::AssertUnwindSafe(|| inp.issuance_ids()));
+            checks.push(("issuance_ids_match_independent_derivation", matches!(real_ids, Ok(p) if p == (aid, tid))));
+            if conf_iss && has_amount && !has_keys {
                 checks.push(("blinded_issuance_amount_is_commitment_on_unblinded_generator",
-                    inp.asset_issuance.amount == Value::new_confidential_from_assetid(secp, amount, aid, ivbf, AssetBlindingFactor::zero())
-                        && inp.witness.amount_rangeproof.is_some()));
+                    inp.asset_issuance.amount == Value::new_confidential_from_assetid(secp, amount, aid, ivbf, AssetBlindingFactor::zero())));
             }
-            spent.push(TxOutSecrets::new(aid, AssetBlindingFactor::zero(), amount, ivbf));
-            let kparts = rng.gen_range(1..=2usize).min(amount as usize);
-            for p in split(rng, amount as u128, kparts) {
-                outs.push((aid, p, false));
+            if has_amount {
+                spent.push(TxOutSecrets::new(aid, AssetBlindingFactor::zero(), amount, ivbf));
+                let kparts = rng.gen_range(1..=2usize).min(amount as usize);
+                for p in split(rng, amount as u128, kparts) {
+                    outs.push((aid, p, false));
+                }
             }
-            if let Some(k) = keys {
-                spent.push(TxOutSecrets::new(tid, AssetBlindingFactor::zero(), k, tvbf));
-                outs.push((tid, k, false));
+            if has_keys {
+                spent.push(TxOutSecrets::new(tid, AssetBlindingFactor::zero(), keys, tvbf));
+                outs.push((tid, keys, false));
             }
         }
         inputs.push(inp);
@@ -926,6 +990,94 @@ fn blind_errors(rng: &mut R, out: &mut Out, secp: &Secp256k1<All>) {
     }
 }
 
+/// the amounts at the edges of what the range-proof parameters admit (min value 1, 52 bits minimum,
+/// below 2^63), each as the single / the last / a non-last marked output: inside the range blinding must
+/// succeed and the result verify, outside it must fail with an error (never a panic)
+fn admissible_amounts(rng: &mut R, out: &mut Out, secp: &Secp256k1<All>) {
+    let cases: [(u64, bool); 8] = [(1, true), ((1 << 52) - 1, true), (1 << 52, true), (1 << 62, true), ((1 << 63) - 2, true), ((1 << 63) - 1, true), (1 << 63, false), (u64::MAX, false)];
+    for (v, admissible) in cases {
+        for pos in 0..3 {
+            let a = gen::asset_id(rng);
+            let other = rng.gen_range(1..1000u64);
+            let fee = rng.gen_range(1..100u64);
+            let vals: Vec<u64> = match pos { 0 => vec![v], 1 => vec![other, v], _ => vec![v, other] };
+            let total: u128 = vals.iter().map(|x| *x as u128).sum::<u128>() + fee as u128;
+            let parts = split(rng, total, if total > u64::MAX as u128 { 2 } else { 1 + pos % 2 });
+            let mut utxos = vec![];
+            let mut spent = vec![];
+            let mut input = vec![];
+            for (k, p) in parts.iter().enumerate() {
+                // explicit and fully blinded spent outputs alternate
+                if (k + pos) % 2 == 0 {
+                    utxos.push(TxOut { asset: Asset::Explicit(a), value: Value::Explicit(*p), nonce: Nonce::Null, script_pubkey: addressable_script(rng), witness: TxOutWitness::default() });
+                    spent.push(TxOutSecrets::new(a, AssetBlindingFactor::zero(), *p, ValueBlindingFactor::zero()));
+                } else {
+                    let (abf, vbf) = (AssetBlindingFactor::new(rng), ValueBlindingFactor::new(rng));
+                    utxos.push(TxOut { asset: Asset::new_confidential(secp, a, abf), value: Value::new_confidential_from_assetid(secp, *p, a, vbf, abf), nonce: Nonce::Null, script_pubkey: addressable_script(rng), witness: TxOutWitness::default() });
+                    spent.push(TxOutSecrets::new(a, abf, *p, vbf));
+                }
+                input.push(plain_txin(rng));
+            }
+            let mut output: Vec<TxOut> = vals.iter().map(|x| TxOut {
+                asset: Asset::Explicit(a), value: Value::Explicit(*x), nonce: Nonce::Confidential(gen::pubkey(rng)), script_pubkey: addressable_script(rng), witness: TxOutWitness::default(),
+            }).collect();
+            output.push(TxOut { asset: Asset::Explicit(a), value: Value::Explicit(fee), nonce: Nonce::Null, script_pubkey: Script::new(), witness: TxOutWitness::default() });
+            let tx = Transaction { version: 2, lock_time: LockTime::ZERO, input, output };
+            let oc = run_blind(rng, out, secp, &tx, &spent);
+            let det = || format!("amount {} as {} marked output: {} -> {:?}", v, ["single", "last", "non-last"][pos], describe(&tx, &utxos, &spent), oc.res.as_ref().map(|m| m.len()));
+            out.count(&format!("admissible.{}.{}", if admissible { "in_range" } else { "out_of_range" }, ["single", "last", "non_last"][pos]));
+            if admissible {
+                out.s("blind_succeeds_for_admissible_values", oc.res.is_ok(), &det);
+                if oc.res.is_ok() {
+                    let vr = std::panic::catch_unwind(std::panic::AssertUnwindSafe(|| oc.tx.verify_tx_amt_proofs(secp, &utxos)));
+                    out.s("admissible_value_blinded_tx_verifies", matches!(vr, Ok(Ok(()))), &det);
+                }
+            } else {
+                out.s("blind_fails_with_error_for_inadmissible_values", oc.res == Err("err ConfidentialTxOutError".into()), &det);
+            }
+        }
+    }
+}
+
+/// a TOKEN-ONLY issuance (amount null, explicit inflation keys), new and reissuance, the token id
+/// supplied by the caller from the independent derivation; the token output is blinded
+fn token_only_issuance_cases(rng: &mut R, out: &mut Out, secp: &Secp256k1<All>) {
+    for re in [false, true] {
+        let a = gen::asset_id(rng);
+        let v = rng.gen_range(1000..100_000u64);
+        let k = rng.gen_range(1..10u64);
+        let mut inp = plain_txin(rng);
+        inp.asset_issuance = AssetIssuance {
+            asset_blinding_nonce: if re { gen::tweak(rng) } else { ZERO_TWEAK },
+            asset_entropy: gen::arr32(rng),
+            amount: Value::Null,
+            inflation_keys: Value::Explicit(k),
+        };
+        let (_, tid) = oracle_ids(&inp);
+        let real_ids = std::panic::catch_unwind(std::panic::AssertUnwindSafe(|| inp.issuance_ids()));
+        let utxo = TxOut { asset: Asset::Explicit(a), value: Value::Explicit(v), nonce: Nonce::Null, script_pubkey: addressable_script(rng), witness: TxOutWitness::default() };
+        let spent = vec![
+            TxOutSecrets::new(a, AssetBlindingFactor::zero(), v, ValueBlindingFactor::zero()),
+            TxOutSecrets::new(tid, AssetBlindingFactor::zero(), k, ValueBlindingFactor::zero()),
+        ];
+        let mk_out = |rng: &mut R, asset: AssetId, value: u64, fee: bool| TxOut {
+            asset: Asset::Explicit(asset), value: Value::Explicit(value), nonce: Nonce::Null,
+            script_pubkey: if fee { Script::new() } else { addressable_script(rng) }, witness: TxOutWitness::default(),
+        };
+        let output = vec![mk_out(rng, a, v - 100, false), mk_out(rng, tid, k, false), mk_out(rng, a, 100, true)];
+        let base = Base {
+            tx: Transaction { version: 2, lock_time: LockTime::ZERO, input: vec![inp], output },
+            utxos: vec![utxo], spent, n_assets: 2, n_issuances: 1, n_conf_utxos: 0,
+            tags: vec![format!("issuance.{}.explicit.token_only", if re { "re" } else { "new" })],
+            checks: vec![("issuance_ids_match_independent_derivation", matches!(real_ids, Ok(p) if p.1 == tid))],
+        };
+        base_record(out, &base);
+        for which in [vec![1usize], vec![0, 1]] {
+            c04_case(rng, out, secp, &base, &which);
+        }
+    }
+}
+
 /// the single marked output has amount 0 and every input is explicit, so the computed last blinding
 /// factor is 0 too: must be an error (was an assertion failure before /repo 17ff2cc)
 fn zero_last_case(rng: &mut R, out: &mut Out, secp: &Secp256k1<All>) {
@@ -959,7 +1111,10 @@ fn manual_case(rng: &mut R, out: &mut Out, secp: &Secp256k1<All>) {
         let (a, v) = (o.asset.explicit().unwrap(), o.value.explicit().unwrap());
         if mk.contains(&i) && i != *mk.last().unwrap() {
             let rsk = gen::seckey(rng);
-            let addr = Address::from_script(&o.script_pubkey, Some(PublicKey::from_secret_key(secp, &rsk)), &AddressParams::ELEMENTS).unwrap();
+            let addr = match Address::from_script(&o.script_pubkey, Some(PublicKey::from_secret_key(secp, &rsk)), &AddressParams::ELEMENTS) {
+                Some(a) => a,
+                None => { out.s("address_from_addressable_script", false, || hex(o.script_pubkey.as_bytes())); return; }
+            };
             let mut brng = R::seed_from_u64(rng.gen());
             match TxOut::new_not_last_confidential(&mut brng, secp, v, &addr, a, &base.spent) {
                 Ok((no, abf, vbf, _)) => {
@@ -1058,6 +1213,8 @@ pub fn run(rng: &mut R, out: &mut Out) {
     probe_blind_issuances_token_id(rng, out, &secp);
     blind_errors(rng, out, &secp);
     zero_last_case(rng, out, &secp);
+    admissible_amounts(rng, out, &secp);
+    token_only_issuance_cases(rng, out, &secp);
     for _ in 0..(if thorough { 40 } else { 4 }) {
         manual_case(rng, out, &secp);
     }
